@@ -21,7 +21,13 @@ class Span:
 import datetime as _dt
 def _sp(o):
     if isinstance(o, Span): return o.t
-    if isinstance(o, _dt.timedelta): return o.total_seconds()
+    if isinstance(o, _dt.timedelta):
+        # real timedelta constants used by RxPY (DELTA_ZERO, timedelta.max): keep them integral so that
+        # comparisons with symbolic ticks stay in integer arithmetic (a float constant makes z3 crawl)
+        if o == _dt.timedelta.max: return 10 ** 15
+        if o == _dt.timedelta.min: return -10 ** 15
+        s = o.total_seconds()
+        return int(s) if s == int(s) else s
     raise TypeError(o)
 
 class Tick:
